@@ -36,6 +36,9 @@
 /* acceptance sets: POS plus the unsigned classes up to `bytes`; POS, NEG plus the signed classes up to `bytes` */
 #define VT_MATCH_UINT(p, bytes) ((p) <= FMT_POS_MAX || (p) == FMT_U8 || ((bytes) >= 2 && (p) == FMT_U16) || ((bytes) >= 4 && (p) == FMT_U32) || ((bytes) >= 8 && (p) == FMT_U64))
 #define VT_MATCH_INT(p, bytes) ((p) <= FMT_POS_MAX || (p) >= FMT_NEG_MIN || (p) == FMT_I8 || ((bytes) >= 2 && (p) == FMT_I16) || ((bytes) >= 4 && (p) == FMT_I32) || ((bytes) >= 8 && (p) == FMT_I64))
+/* payload length selected by prefix p for an integer of `bytes` bytes, or 0 when the class is not allowed */
+#define VT_DECLEN_UINT(p, bytes) ((p) <= FMT_POS_MAX ? 1UL : (p) == FMT_U8 ? 2UL : ((bytes) >= 2 && (p) == FMT_U16) ? 3UL : ((bytes) >= 4 && (p) == FMT_U32) ? 5UL : ((bytes) >= 8 && (p) == FMT_U64) ? 9UL : 0UL)
+#define VT_DECLEN_INT(p, bytes) (((p) <= FMT_POS_MAX || (p) >= FMT_NEG_MIN) ? 1UL : (p) == FMT_I8 ? 2UL : ((bytes) >= 2 && (p) == FMT_I16) ? 3UL : ((bytes) >= 4 && (p) == FMT_I32) ? 5UL : ((bytes) >= 8 && (p) == FMT_I64) ? 9UL : 0UL)
 /* ghost index used instead of quantifiers over byte ranges (fixed but arbitrary) */
 unsigned long vt_k;
 #endif
